@@ -330,6 +330,11 @@ def native_replay(scratch, harness_name, vectors):
         return {"result": "timeout", "detail": "native replay did not finish in 120 s (hang reproduced?)"}
     m = re.search(r"REPLAY-RESULT: (\S+)\s*(.*)", out)
     if not m:
+        # the process aborted (e.g. an obligation failed inside a destructor during unwinding):
+        # the first panic message is the failed obligation
+        pm = re.search(r"\[replay\] panic: (.*)", out)
+        if pm and not pm.group(1).startswith("ASSUMPTION"):
+            return {"result": "reproduced", "detail": pm.group(1) + " (process aborted)"}
         return {"result": "crashed", "detail": out[-2000:]}
     return {"result": m.group(1), "detail": m.group(2)}
 
@@ -665,6 +670,45 @@ def replay(path):
         shutil.rmtree(scratch, ignore_errors=True)
 
 
+def smoke(names, runs):
+    """Native smoke test of the harnesses themselves: each harness is run `runs` times on the
+    natively compiled real code (std build) with pseudo-random choices. Finds harness bugs fast."""
+    scratch = make_scratch()
+    bad = 0
+    try:
+        hs = discover()
+        write_dispatch(scratch, hs)
+        binp, err = build_replay_bin(scratch)
+        if binp is None:
+            print(err)
+            return 2
+        for h in hs:
+            if names and h.name not in names:
+                continue
+            stats = {}
+            first_fail = None
+            for seed in range(runs):
+                try:
+                    p = subprocess.run([binp, "--random", h.name, str(seed)], stdout=subprocess.PIPE, stderr=subprocess.STDOUT, text=True, timeout=60)
+                    m = re.search(r"REPLAY-RESULT: (\S+)\s*(.*)", p.stdout)
+                    res = m.group(1) if m else "crashed"
+                    if res in ("reproduced", "crashed") and first_fail is None:
+                        pm = re.search(r"\[replay\] panic: (.*)", p.stdout)
+                        first_fail = (seed, (pm.group(1) if pm else p.stdout[-300:]))
+                except subprocess.TimeoutExpired:
+                    res = "timeout"
+                stats[res] = stats.get(res, 0) + 1
+            expect_fail = h.expect == "fail"
+            flag = ""
+            if (stats.get("reproduced", 0) + stats.get("crashed", 0) > 0) != expect_fail:
+                flag = "  <-- UNEXPECTED"
+                bad += 1
+            print("%-40s %s%s %s" % (h.name, stats, flag, first_fail or ""))
+        return 1 if bad else 0
+    finally:
+        shutil.rmtree(scratch, ignore_errors=True)
+
+
 def setup():
     ok = True
     for tool in (["cargo", "kani", "--version"], ["verus", "--version"], ["rsync", "--version"]):
@@ -690,12 +734,17 @@ def main():
     r = sub.add_parser("replay")
     r.add_argument("path")
     sub.add_parser("list")
+    sm = sub.add_parser("smoke")
+    sm.add_argument("names", nargs="*")
+    sm.add_argument("--runs", type=int, default=40)
     sub.add_parser("setup")
     a = ap.parse_args()
     if a.cmd == "check":
         sys.exit(check(a.prop, a.tier if a.tier in ("quick", "thorough") else "quick", a.keep, a.only))
     if a.cmd == "replay":
         sys.exit(replay(a.path))
+    if a.cmd == "smoke":
+        sys.exit(smoke(a.names, a.runs))
     if a.cmd == "setup":
         sys.exit(setup())
     if a.cmd == "list":
